@@ -95,3 +95,63 @@ func EnumSeqs(depth int, f func(ops []int)) {
 	}
 	rec(nil)
 }
+
+// SharedKinds are the consumer kinds of the shared-sub-slice enumeration; each
+// maps a slice of type <int,int>/1 to a slice of the same type.
+var SharedKinds = []string{"self", "map", "filter", "reshard1", "reshard2", "reshard3", "reshuffle", "reduce", "fold", "repartition-hash", "repartition-col0", "repartition-const"}
+
+// EnumShared builds Cogroup(A(s), B(s)) over one shared sub-slice s =
+// Map(source) (optionally carrying the Materialize pragma), where A and B are
+// consumer kinds (indices into SharedKinds). These are the programs in which
+// the compiler's memoisation of compiled sub-slices decides whether two
+// consumers get the tasks they asked for (shard count, partitioner, direct or
+// shuffled dependency).
+func EnumShared(nshard, nrows int, materialize bool, a, b int) *Spec {
+	spec := &Spec{}
+	src := Node{Op: "readerfunc", Cols: []Col{TInt, TInt}, NShard: nshard, ShardRows: make([][][]int, nshard), Script: []vgen.Chunk{{N: 64}}}
+	for i := 0; i < nrows; i++ {
+		src.ShardRows[i%nshard] = append(src.ShardRows[i%nshard], []int{i % 7, i % 23})
+	}
+	spec.Nodes = append(spec.Nodes, src)
+	spec.Nodes = append(spec.Nodes, Node{Op: "map", In: []int{0}, Fn: &Fn{Exprs: []Expr{{K: "col", I: 0}, {K: "hash", T: TInt, M: 17}}}, Materialize: materialize})
+	shared := 1
+	consumer := func(k int) int {
+		var n Node
+		switch SharedKinds[k] {
+		case "self":
+			return shared
+		case "map":
+			n = Node{Op: "map", Fn: &Fn{Exprs: []Expr{{K: "col", I: 0}, {K: "hash", T: TInt, M: 29}}}}
+		case "filter":
+			n = Node{Op: "filter", Fn: &Fn{M: 10, T: 7}}
+		case "reshard1":
+			n = Node{Op: "reshard", N: 1}
+		case "reshard2":
+			n = Node{Op: "reshard", N: 2}
+		case "reshard3":
+			n = Node{Op: "reshard", N: 3}
+		case "reshuffle":
+			n = Node{Op: "reshuffle"}
+		case "reduce":
+			n = Node{Op: "reduce", Fn: &Fn{}}
+		case "fold":
+			n = Node{Op: "fold", Fn: &Fn{Kind: "sumhash"}}
+		case "repartition-hash":
+			n = Node{Op: "repartition", Fn: &Fn{Kind: "hash"}}
+		case "repartition-col0":
+			n = Node{Op: "repartition", Fn: &Fn{Kind: "col0"}}
+		case "repartition-const":
+			n = Node{Op: "repartition", Fn: &Fn{Kind: "const", M: 1}}
+		}
+		n.In = []int{shared}
+		spec.Nodes = append(spec.Nodes, n)
+		return len(spec.Nodes) - 1
+	}
+	ia := consumer(a)
+	ib := consumer(b)
+	spec.Nodes = append(spec.Nodes, Node{Op: "cogroup", In: []int{ia, ib}})
+	if err := Annotate(spec); err != nil {
+		panic(err)
+	}
+	return spec
+}
